@@ -238,7 +238,11 @@ def parse_raw_http(data: bytes) -> Union[HttpRequest, HttpResponse]:
     uri = uri.decode("ascii", errors="ignore").encode()
     result = urlparse(uri)
     uri = result.path
-    params = dict(parse_qsl(result.query))
+    # decode the percent-escapes as latin-1 so that every byte value survives (the sanitized query is ASCII only)
+    params = {
+        key.encode("latin-1"): value.encode("latin-1")
+        for key, value in parse_qsl(result.query.decode("ascii"), encoding="latin-1")
+    }
     return HttpRequest(method=method, body=body, headers=headers, uri=uri, params=params)
 
 
